@@ -31,8 +31,9 @@ NP == Len(F.ps)
 IsVar == ~Has(F.var, "none")
 Extras == IF IsVar THEN (IF Thorough THEN 0..3 ELSE 0..2) ELSE {0}
 PTy(i) == IF i <= NP THEN F.ps[i].ty ELSE F.var.ty
-Thin(n) == IF n <= 1 THEN 60 ELSE IF n = 2 THEN 12 ELSE IF n = 3 THEN 6 ELSE 4
-Cap == IF Thorough THEN 400 ELSE 140
+Thin(n) == IF Mode = "ref" THEN (IF n <= 1 THEN 200 ELSE IF n = 2 THEN 30 ELSE IF n = 3 THEN 9 ELSE 5)
+           ELSE IF n <= 1 THEN 60 ELSE IF n = 2 THEN 12 ELSE IF n = 3 THEN 6 ELSE 4
+Cap == IF Mode = "ref" THEN (IF Thorough THEN 3000 ELSE 600) ELSE IF Thorough THEN 400 ELSE 140
 ListsOfLen(n) == LET pools == [i \in 1..n |-> RandomSubset(IF Cardinality(Pool(PTy(i))) < Thin(n) THEN Cardinality(Pool(PTy(i))) ELSE Thin(n), Pool(PTy(i)))]
                      all == {f \in [1..n -> UNION {pools[i] : i \in 1..n}] : \A i \in 1..n : f[i] \in pools[i]}
                  IN IF Cardinality(all) <= Cap THEN all ELSE RandomSubset(Cap, all)
@@ -52,10 +53,10 @@ MarkOf(a) == UNION {{[a EXCEPT ![i] = w] : w \in TakeN(MarkPlacements(a[i]), 5) 
              \cup (IF Len(a) >= 2 THEN {[a EXCEPT ![1] = WithMk(a[1], <<"m1">>), ![2] = WithMk(a[2], <<"m2">>)]} ELSE {})
 WBase == IF Cardinality(BaseLists) <= (IF Thorough THEN 200 ELSE 60) THEN BaseLists ELSE RandomSubset(IF Thorough THEN 200 ELSE 60, BaseLists)
 Line(a) ==
-  CASE Mode = "call" -> [k |-> "call", api |-> Api, xs |-> <<[none |-> TRUE]>>, a |-> a, vs |-> <<>>]
+  CASE Mode \in {"call", "ref"} -> [k |-> "call", api |-> Api, xs |-> <<[none |-> TRUE]>>, a |-> a, vs |-> <<>>]
     [] Mode = "weak" -> [k |-> "weak", api |-> Api, xs |-> <<[none |-> TRUE]>>, a |-> a, vs |-> SetToSeq(WeakOf(a))]
     [] Mode = "mark" -> [k |-> "mark", api |-> Api, xs |-> <<[none |-> TRUE]>>, a |-> a, vs |-> SetToSeq(MarkOf(a) \cup UNION {MarkOf(w) : w \in TakeN(WeakOf(a), 2)})]
-Src == IF Mode = "call" THEN BaseLists \cup UNION {Injected(a) : a \in InjBase} ELSE WBase
+Src == IF Mode = "ref" THEN BaseLists ELSE IF Mode = "call" THEN BaseLists \cup UNION {Injected(a) : a \in InjBase} ELSE WBase
 \* RandomSubset makes Src differ between evaluations: evaluate it exactly once
 ASSUME LET sq == SetToSeq(Src) IN
        LET out == [i \in 1..Len(sq) |-> Line(sq[i])] IN
